@@ -124,7 +124,12 @@ func runC16(in *Sx) *Sx {
 	f := flamego.NewWithLogger(io.Discard)
 	f.Use(flamego.Static(opt))
 	passed := false
-	f.NotFound(func(c flamego.Context) { passed = !c.ResponseWriter().Written(); c.ResponseWriter().WriteHeader(418) })
+	passHdrs := 0
+	f.NotFound(func(c flamego.Context) {
+		passed = !c.ResponseWriter().Written()
+		passHdrs = len(c.ResponseWriter().Header()) // "writes nothing" includes response headers
+		c.ResponseWriter().WriteHeader(418)
+	})
 	method := in.Field("method").Args()[0].Bytes()
 	path := in.Field("path").Args()[0].Bytes()
 	serve := func(hdr http.Header) (*wireWriter, bool) {
@@ -150,9 +155,10 @@ func runC16(in *Sx) *Sx {
 		body := strings.Join(w.chunks, "")
 		switch {
 		case passed:
-			return T("pass")
+			return T("pass", B(passHdrs > 0))
 		case w.status == 302:
-			return T("redirect", X(w.hdr.Get("Location")))
+			// a redirect must not carry the content of a file
+			return T("redirect", X(w.hdr.Get("Location")), B(strings.Contains(body, "FILE")))
 		case w.status == 304:
 			return T("notmodified")
 		case w.status == 200:
